@@ -91,6 +91,21 @@ Theorem C20_judge_parser_faithful : forall cwd argv,
   obs_of_args cwd (map (parse_arg cwd) (map render_arg argv)) = obs_of_args cwd argv.
 Proof. exact parse_render_obs. Qed.
 
+(* and on the model's own output: if the recorded strings are literally the model's rendering
+   (coverage key exact_argv…: true of every case so far), the observables the judge reads from
+   them are the specification's — names without '/' or '=', no file argument starting with '-' *)
+Theorem C20_judge_reads_model : forall pkg_of cfg argv,
+  wf_node (c_root cfg) -> dirs_ok cfg ->
+  all_names str_ok (c_root cfg) -> Forall seg_ok (c_cwd cfg) ->
+  (forall i, In i (include_paths cfg) -> pspec_segs_ok (fst i)) ->
+  run pkg_of cfg = Ok argv ->
+  (forall q, In q (files_of argv) -> starts_dash (render_pspec q) = false) ->
+  let o := obs_of_args (c_cwd cfg) (map (parse_arg (c_cwd cfg)) (map render_arg argv)) in
+  o_files o = spec_files cfg /\ o_incs o = spec_includes cfg
+  /\ o_go o = spec_mappings pkg_of cfg PGo /\ o_vt o = spec_mappings pkg_of cfg PVt
+  /\ o_grpc o = spec_mappings pkg_of cfg PGrpc /\ o_req o = (true, c_vt cfg, c_grpc cfg).
+Proof. exact judge_reads_model. Qed.
+
 (* ------------------------------------------------------------------ non-vacuity *)
 Definition ex_root : node :=
   Dir "" [Dir "w" [Dir "m" [File "go.mod" false true;
@@ -149,6 +164,21 @@ Example C20_example_scope :
   /\ length (spec_mappings ex_pkg (ex_cfg true) PVt) = 10.
 Proof. vm_compute. repeat split. Qed.
 
+Example C20_example_judge_hyps :
+  all_names str_ok ex_root /\ Forall seg_ok (c_cwd (ex_cfg true))
+  /\ (forall i, In i (include_paths (ex_cfg true)) -> pspec_segs_ok (fst i))
+  /\ (forall q, In q (files_of (match run ex_pkg (ex_cfg true) with Ok a => a | Err => [] end)) ->
+        starts_dash (render_pspec q) = false).
+Proof.
+  split; [|split; [|split]].
+  - unfold ex_root, str_ok, seg_ok. simpl. repeat (split || constructor); try discriminate; reflexivity.
+  - unfold seg_ok. simpl. repeat (split || constructor); try discriminate; reflexivity.
+  - intros i Hi. simpl in Hi. unfold pspec_segs_ok, seg_ok.
+    repeat (destruct Hi as [<-|Hi]; [simpl; repeat (split || constructor); try discriminate; reflexivity|]).
+    contradiction.
+  - vm_compute. intros q Hq. repeat (destruct Hq as [<-|Hq]; [reflexivity|]). contradiction.
+Qed.
+
 Print Assumptions C20_files.
 Print Assumptions C20_files_scope.
 Print Assumptions C20_files_exactly_once.
@@ -160,3 +190,4 @@ Print Assumptions C20_at_most_one_invocation.
 Print Assumptions C20_one_invocation.
 Print Assumptions C20_checked.
 Print Assumptions C20_judge_parser_faithful.
+Print Assumptions C20_judge_reads_model.
